@@ -52,6 +52,11 @@ async fn handle_connection(mut socket: WebSocket, state: ApiState) {
         _ => return,
     };
 
+    // Live rows are filtered like StreamingQueryExecutor filters them: by the query's WHERE
+    // clause, and from the merge point on (older rows belong to the historical part).
+    let query_filter = crate::query::QueryFilter::from_sql(&request.query);
+    let merge_timestamp = chrono::Utc::now().timestamp_nanos_opt().unwrap_or(0);
+
     // Execute historical query
     match state.query_node.query(&request.query).await {
         Ok(batches) => {
@@ -94,6 +99,20 @@ async fn handle_connection(mut socket: WebSocket, state: ApiState) {
                 result = rx.recv() => {
                     match result {
                         Ok(batch) => {
+                            let batch = match query_filter.apply(&batch, merge_timestamp) {
+                                Ok(Some(filtered)) => filtered,
+                                Ok(None) => continue,
+                                Err(e) => {
+                                    let _ = socket.send(Message::Text(
+                                        serde_json::to_string(&StreamMessage {
+                                            msg_type: "error".to_string(),
+                                            data: serde_json::json!({ "error": e.to_string() }),
+                                        })
+                                        .unwrap(),
+                                    )).await;
+                                    break;
+                                }
+                            };
                             let json = batch_to_json(&batch);
                             let msg = StreamMessage {
                                 msg_type: "data".to_string(),
